@@ -389,22 +389,135 @@ func c17Validation(p *core.Program, r *core.Report, resolver *types.Func) {
 	})
 	r.Check(okOut, "R17.3", "conf.(Config).Check/exactly one result", pos, "rejects NumOut() != 1", "Config.Check does not require exactly one result: the resolver's Out(0) panics for a function without results")
 	// NumIn: required = base, or base+1 under the Method flag; the resolver indexes first, first+1
-	okIn, iIn := has(func(e ast.Expr) bool {
-		_, _, ok := isTypeMethodCmp(e, "NumIn", token.NEQ)
-		return ok
-	})
-	if okIn {
-		_, req, _ := isTypeMethodCmp(conds[iIn].e, "NumIn", token.NEQ)
-		cb, cm, ok1 := methodDependentConst(cinfo, check, req)
+	// the count test is read, under each value of the Method flag, as an affine equation in
+	// N = NumIn(): whichever way it is written (a required count that depends on the flag, or
+	// the receiver subtracted from the count), it pins N to one value per flag
+	requiredN := func(method bool) (int64, bool) {
+		env := &eng.AffEnv{Info: cinfo, Vars: map[types.Object]eng.Aff{}}
+		env.Sym = func(e ast.Expr) (string, bool) {
+			if c, ok := eng.Unparen(e).(*ast.CallExpr); ok && len(c.Args) == 0 {
+				if sel, ok := c.Fun.(*ast.SelectorExpr); ok && sel.Sel.Name == "NumIn" {
+					return "N", true
+				}
+			}
+			return "", false
+		}
+		exec := func(st ast.Stmt) {
+			switch x := st.(type) {
+			case *ast.AssignStmt:
+				if len(x.Lhs) == 1 && len(x.Rhs) == 1 {
+					if id, ok := x.Lhs[0].(*ast.Ident); ok {
+						obj := objOf(cinfo, id)
+						switch x.Tok {
+						case token.DEFINE, token.ASSIGN:
+							if a, ok := env.Eval(x.Rhs[0]); ok {
+								if _, isCall := eng.Unparen(x.Rhs[0]).(*ast.CallExpr); !isCall || len(a.T) > 0 {
+									env.Vars[obj] = a
+								}
+							}
+						case token.ADD_ASSIGN, token.SUB_ASSIGN:
+							if cur, ok := env.Vars[obj]; ok {
+								if d, ok := env.Eval(x.Rhs[0]); ok {
+									sign := int64(1)
+									if x.Tok == token.SUB_ASSIGN {
+										sign = -1
+									}
+									env.Vars[obj] = cur.Add(d, sign)
+								}
+							}
+						}
+					}
+				}
+			case *ast.IncDecStmt:
+				if id, ok := eng.Unparen(x.X).(*ast.Ident); ok {
+					if cur, ok := env.Vars[objOf(cinfo, id)]; ok {
+						d := int64(1)
+						if x.Tok == token.DEC {
+							d = -1
+						}
+						env.Vars[objOf(cinfo, id)] = cur.Add(eng.AffConst(d), 1)
+					}
+				}
+			}
+		}
+		var found *int64
+		var walk func(list []ast.Stmt)
+		walk = func(list []ast.Stmt) {
+			for _, st := range list {
+				if found != nil {
+					return
+				}
+				switch x := st.(type) {
+				case *ast.IfStmt:
+					cs := eng.ExprStr(x.Cond)
+					isFlag := strings.HasSuffix(cs, ".Method")
+					neg := strings.HasPrefix(cs, "!")
+					if isFlag {
+						if method != neg {
+							walk(x.Body.List)
+						} else if eb, ok := x.Else.(*ast.BlockStmt); ok {
+							walk(eb.List)
+						}
+						continue
+					}
+					// is this the count test?
+					var split func(e ast.Expr)
+					split = func(e ast.Expr) {
+						e = eng.Unparen(e)
+						if b, ok := e.(*ast.BinaryExpr); ok && b.Op == token.LOR {
+							split(b.X)
+							split(b.Y)
+							return
+						}
+						if b, ok := e.(*ast.BinaryExpr); ok && b.Op == token.NEQ && found == nil {
+							l, ok1 := env.Eval(b.X)
+							rr, ok2 := env.Eval(b.Y)
+							if ok1 && ok2 {
+								d := l.Add(rr, -1) // d = 0 is what passes
+								if c := d.T["N"]; (c == 1 || c == -1) && len(d.T) == 1 {
+									v := -d.C * c
+									found = &v
+								}
+							}
+						}
+					}
+					if len(x.Body.List) > 0 {
+						if rs, ok := x.Body.List[len(x.Body.List)-1].(*ast.ReturnStmt); ok && len(rs.Results) == 1 && !isNilIdent(cinfo, rs.Results[0]) {
+							split(x.Cond)
+						}
+					}
+					if found == nil {
+						walk(x.Body.List)
+					}
+				case *ast.BlockStmt:
+					walk(x.List)
+				case *ast.ForStmt:
+					walk(x.Body.List)
+				case *ast.RangeStmt:
+					walk(x.Body.List)
+				default:
+					exec(st)
+				}
+			}
+		}
+		walk(check.Body.List)
+		if found == nil {
+			return 0, false
+		}
+		return *found, true
+	}
+	cb, okB := requiredN(false)
+	cm, okM := requiredN(true)
+	if okB && okM {
 		rb, rm, ok2 := resolverFirstIndex(cinfo, rfd)
-		if !ok1 || !ok2 {
-			r.Unk("R17.3", "conf.(Config).Check/parameter count fits the resolver's indexing", pos, "cannot evaluate the required parameter count or the resolver's first index under the Method flag")
+		if !ok2 {
+			r.Unk("R17.3", "conf.(Config).Check/parameter count fits the resolver's indexing", pos, "cannot evaluate the resolver's first index under the Method flag")
 		} else {
 			r.Check(cb == rb+2 && cm == rm+2, "R17.3", "conf.(Config).Check/parameter count fits the resolver's indexing", pos, fmt.Sprintf("required NumIn %d (method: %d) = resolver's first index %d (method: %d) + 2", cb, cm, rb, rm),
 				fmt.Sprintf("Config.Check requires %d parameters (%d for methods) while the resolver reads parameters %d and %d (%d and %d for methods): an accepted mapping makes the resolver index out of range, or a valid one is rejected", cb, cm, rb, rb+1, rm, rm+1))
 		}
 	} else {
-		r.Bad("R17.3", "conf.(Config).Check/parameter count fits the resolver's indexing", pos, "Config.Check does not test the parameter count of the mapped function")
+		r.Bad("R17.3", "conf.(Config).Check/parameter count fits the resolver's indexing", pos, "Config.Check does not test the parameter count of the mapped function (no `… != …` test that pins NumIn() to one value, leaving with an error)")
 	}
 
 	// must-precede in expr.Compile
